@@ -14,6 +14,17 @@ import (
 // there.  Process names follow New(): s0(i) AServer, s1(N+i) RequestVote, s2(2N+i) AppendEntries,
 // s3(3N+i) AdvanceCommitIndex, s4(4N+i) BecomeLeader, client(6N+k).
 
+// recvStep: server `srv` takes from its mailbox a message of type mtype sent by `from` (0 = anybody).
+func (c Config) recvStep(srv int, mtype string, from int) ss.SeedStep {
+	return ss.SeedStep{Proc: fmt.Sprintf("s0(%d)", srv), Accept: func(a *ss.Attempt) bool {
+		m := a.Next.Locals[srv-1]["AServer.m"]
+		if a.Next.Locals[srv-1][".pc"].AsString() != "AServer.handleMsg" {
+			return false
+		}
+		return m.ApplyFunction(str("mtype")).AsString() == mtype && (from == 0 || int(m.ApplyFunction(str("msource")).AsNumber()) == from)
+	}}
+}
+
 func rep(n int, name string) []ss.SeedStep {
 	var out []ss.SeedStep
 	for i := 0; i < n; i++ {
@@ -74,6 +85,61 @@ func (c Config) SeedReplicate(k, leader int, acks []int) []ss.SeedStep {
 	return s
 }
 
+// SeedElectSpurious: like SeedElect, but the first step is a *spurious* election timeout (a live
+// leader exists): it uses one environment deviation.  voters = the servers whose votes are
+// delivered and counted (they must be able to grant); every other live server also processes the
+// RequestVote (and steps down if it was leader).
+func (c Config) SeedElectSpurious(who int, voters []int) []ss.SeedStep {
+	N := c.NumServers
+	rv := fmt.Sprintf("s1(%d)", N+who)
+	s := []ss.SeedStep{{Proc: rv, AllowDev: true}}
+	s = append(s, rep(N+1, rv)...)
+	for j := 1; j <= N; j++ {
+		if j != who {
+			s = append(s, rep(2, fmt.Sprintf("s0(%d)", j))...) // receive RequestVote, handle (grant or refuse)
+		}
+	}
+	for range voters {
+		s = append(s, rep(2, fmt.Sprintf("s0(%d)", who))...) // receive a vote response, handle
+	}
+	// the refusing servers' responses are handled too (they do not change the outcome)
+	for j := 1; j <= N-1-len(voters); j++ {
+		s = append(s, rep(2, fmt.Sprintf("s0(%d)", who))...)
+	}
+	s = append(s, ss.SeedStep{Proc: fmt.Sprintf("s4(%d)", 4*N+who)})
+	return s
+}
+
+// SeedAppendOnly: client k submits its next request to `leader`, which appends it - nothing is replicated.
+func (c Config) SeedAppendOnly(k, leader int) []ss.SeedStep {
+	N := c.NumServers
+	cl := fmt.Sprintf("client(%d)", 6*N+k)
+	return []ss.SeedStep{{Proc: cl}, {Proc: cl, Accept: func(a *ss.Attempt) bool {
+		for _, l := range a.Next.Locals {
+			if v, ok := l["AClient.leader"]; ok && l[".pc"].AsString() == "AClient.rcvResp" && int(v.AsNumber()) == leader {
+				if r, ok := l["AClient.reqIdx"]; ok && r.AsNumber() > 0 {
+					return true
+				}
+			}
+		}
+		return false
+	}}, {Proc: fmt.Sprintf("s0(%d)", leader)}, {Proc: fmt.Sprintf("s0(%d)", leader)}}
+}
+
+// SeedReplicateTo: the leader runs one AppendEntries round; the servers in acks process it and
+// the leader processes their answers (no commit-index advance).
+func (c Config) SeedReplicateTo(leader int, acks []int) []ss.SeedStep {
+	N := c.NumServers
+	s := rep(1+N+1, fmt.Sprintf("s2(%d)", 2*N+leader))
+	for _, j := range acks {
+		s = append(s, c.recvStep(j, "apq", leader), ss.SeedStep{Proc: fmt.Sprintf("s0(%d)", j)})
+	}
+	for _, j := range acks {
+		s = append(s, c.recvStep(leader, "app", j), ss.SeedStep{Proc: fmt.Sprintf("s0(%d)", leader)})
+	}
+	return s
+}
+
 // SeedClientRecv: client k takes the pending response to its current request.
 func (c Config) SeedClientRecv(k int) []ss.SeedStep {
 	return []ss.SeedStep{{Proc: fmt.Sprintf("client(%d)", 6*c.NumServers+k)}}
@@ -118,6 +184,19 @@ func Build(cfg Config, seed string, observe func(pre *ss.State, p int, ev *trace
 		scripts = [][]ss.SeedStep{cfg.SeedElect(1), cfg.SeedReplicate(1, 1, majority())}
 	case "commit2-lagging":
 		scripts = [][]ss.SeedStep{cfg.SeedElect(1), cfg.SeedReplicate(1, 1, cfg.Others(1)), cfg.SeedClientRecv(1), cfg.SeedReplicate(1, 1, majority())}
+	case "figure8":
+		// the situation of Figure 8 of the Raft paper (3 servers, 2 clients): S1 (term 2) appends x
+		// without replicating it; S2 wins term 3 and appends y at the same index without
+		// replicating it; S1 wins term 4 and replicates the old-term entry x to S3.  x now sits on a
+		// majority but must NOT be committed by counting replicas (it is not of the leader's term).
+		if cfg.NumServers != 3 || cfg.NumClients < 2 {
+			return nil, fmt.Errorf("seed figure8 needs 3 servers and 2 clients")
+		}
+		scripts = [][]ss.SeedStep{cfg.SeedElect(1), cfg.SeedAppendOnly(1, 1),
+			cfg.SeedElectSpurious(2, []int{3}), cfg.SeedAppendOnly(2, 2),
+			cfg.SeedElectSpurious(1, []int{3}),
+			// first round: nextIndex[3] = 2 is refused by S3 (empty log) and backed off; second round ships x
+			cfg.SeedReplicateTo(1, []int{3}), cfg.SeedReplicateTo(1, []int{3})}
 	case "commit2-lagging-crash":
 		// ... and then the leader crash-stops (needs ExploreFail): the survivors must elect among themselves
 		scripts = [][]ss.SeedStep{cfg.SeedElect(1), cfg.SeedReplicate(1, 1, cfg.Others(1)), cfg.SeedClientRecv(1), cfg.SeedReplicate(1, 1, majority()),
